@@ -30,8 +30,20 @@ with B the same scalar product of the |cores| (computed exactly as well); only i
 * `C16.stab.extreme_cores`   the property as written for per-core scales 2^-200 / 2^-170 / 2^+520 (adjacent products
                              below core_stab's threshold 1e-100 resp. above 2^1023 before the rescaling happens).
 
+* `C16.rescale.exponent_only`  rescaling one core (first / second / mid / penultimate / last) by 2^t, t in {1, -3, 17, -40,
+                             100}: mul_scalar, norm and orthogonalize shift their exponent by exactly t (2t if both arguments
+                             of the scalar product are rescaled) and return the same mantissa (bit-identical values; QR
+                             mantissa cores within 8 ulp).
+
+Parameter coverage (audit): orthogonalize pivot k in {0, 1, d//3, d//2, 2d//3, d-2, d-1, None}; truncate e in {1e-12 .. 0.3},
+rank cap r (int / float; below, at and above the TT-rank; cap = TT-rank on rank-deficient 'dup' inputs), is_eigh False;
+accuracy separations 2^100 .. 2^520 around the saturation threshold 2^500; mode sizes 1, 2, 3, 5, 17 and mixed lists; ranks
+1, 2, 3 and 5 (more than the boundary cores carry); d = 2100 with the total exponent swept over the residues modulo d
+(`tshift`: truncate redistributes 2^(p/d) per core); core_stab on 1-D / 2-D / 4-D blocks.
+
 Families: positive uniform cores, Gaussian, signed rank 1, integer, orthogonally conjugated block-diagonal cores;
-eight per-core exponent profiles (zero / up / down / alt / front / back / rand / ramp) with totals up to 2^{+-30000};
+eleven per-core exponent profiles (zero / up / down / alt / front / back / rand / ramp, one = a single huge or tiny core,
+ends = first and last core, alt2 = alternating 2^200 / 2^-80) with totals up to 2^{+-30000};
 the main clauses keep per-core exponents in [-80, 200] (see `C16.stab.extreme_cores` for the reason).
 """
 import math
@@ -43,8 +55,10 @@ from rtc import gen
 
 BUDGET = (58, 580)
 CASE_TIMEOUT = 120
-BOUNDS = ('d in {2, 3, 10, 60, 500, 3000}, rank 1..3 (3000: rank <= 2 quick), n in {2,3}, 5 families, 8 exponent '
-          'profiles, totals 2^-30000 .. 2^+30000 (|per-core exponent| <= 80 down / 200 up), exact big-integer reference')
+BOUNDS = ('d in {2, 3, 10, 60, 500, 2100, 3000}, rank 1..3 and 5 (3000: rank <= 2 quick), n in {1, 2, 3, 5, 17, mixed}, 5 families, '
+          '11 exponent profiles, totals 2^-30000 .. 2^+30000 (|per-core exponent| <= 80 down / 200 up), pivots {0, 1, d/3, d/2, 2d/3, '
+          'd-2, d-1, None}, truncate e 1e-12..0.3 / rank caps / is_eigh, accuracy separations 2^100..2^640, one-core rescalings 2^t, '
+          'exact big-integer reference')
 
 EPS = np.finfo(float).eps
 PROFILES = ('zero', 'up', 'down', 'alt', 'front', 'back', 'rand', 'ramp')
@@ -513,7 +527,7 @@ def accuracy_rel(d, r, n, seed, fam, prof, s, rel, sep=640):
     if not np.isfinite(got) or got < 0:
         return FAIL(f'accuracy = {got!r} for a true quotient 2^{lg:.3f}')
     want = 2.0 ** lg
-    q = (got / want) ** 2
+    q = float(np.float64(got / want) ** 2)              # inf instead of OverflowError
 
     def rigorous():
         Ns = [(1, *exact_dot(Y1, Y1, absval=True)), (2, *exact_dot(Y1, Y2, absval=True)), (1, *exact_dot(Y2, Y2, absval=True))]
